@@ -52,9 +52,21 @@ def sh(cmd, timeout, cwd=None, env=None):
 # stage A: proof obligations
 # ----------------------------------------------------------------------------
 
+def plugin_imports(pid):
+    """COQ_IMPORTS of a plugin, read textually (no import of the plugin needed)"""
+    path = os.path.join(VERIF, 'harness', 'props', pid.lower() + '.py')
+    if not os.path.exists(path):
+        return []
+    m = re.search(r'^COQ_IMPORTS\s*=\s*\[(.*?)\]', open(path).read(), re.M | re.S)
+    return re.findall(r'[\'"]([A-Za-z_.0-9]+)[\'"]', m.group(1)) if m else []
+
+
 def cone(pids):
-    """files (relative to coq/) in the dependency cone of Properties/<pid>.v, from the Require lines"""
+    """files (relative to coq/) in the dependency cone of Properties/<pid>.v and of the modules the plugin's case files
+    import, from the Require lines"""
     todo = ['Properties/%s.v' % p for p in pids]
+    for p in pids:
+        todo += [m.replace('PT.', '', 1).replace('.', '/') + '.v' for m in plugin_imports(p)]
     seen = []
     while todo:
         f = todo.pop()
@@ -63,12 +75,13 @@ def cone(pids):
         seen.append(f)
         src = open(os.path.join(COQ, f), encoding='utf-8', errors='replace').read()
         src = re.sub(r'\(\*.*?\*\)', ' ', src, flags=re.S)
-        for m in re.finditer(r'From\s+PT\s+Require\s+(?:Import|Export)\s+([^.]*(?:\.[A-Za-z_][^.\s]*)*)\s*\.', src):
-            for mod in m.group(1).split():
-                todo.append(mod.replace('PT.', '').replace('.', '/') + '.v')
-        for m in re.finditer(r'Require\s+(?:Import|Export)\s+((?:PT\.[A-Za-z_.0-9]+\s*)+)\.', src):
+        for m in re.finditer(r'From\s+PT\s+Require\s+(?:Import|Export)\s+(.*?)\.(?=\s|$)', src, flags=re.S):
             for mod in m.group(1).split():
                 todo.append(mod.replace('PT.', '', 1).replace('.', '/') + '.v')
+        for m in re.finditer(r'(?<!PT\s)Require\s+(?:Import|Export)\s+(.*?)\.(?=\s|$)', src, flags=re.S):
+            for mod in m.group(1).split():
+                if mod.startswith('PT.'):
+                    todo.append(mod.replace('PT.', '', 1).replace('.', '/') + '.v')
     return sorted(seen)
 
 
